@@ -671,6 +671,10 @@ func (c *evalCtx) call(x *ECall) val {
 		k := vc.newName("k")
 		return val{t: fmt.Sprintf("(and (= (s.len %s) (- (s.len %s) 1)) (forall ((%s Int)) (=> (and (<= 0 %s) (< %s (s.len %s))) (= (select (s.arr %s) %s) (select (s.arr %s) (+ %s 1))))))",
 			a.t, b.t, k, k, k, a.t, a.t, k, b.t, k), typ: tBool}
+	case "chr": // chr(c): one-byte string
+		argN(1)
+		v := c.eval(x.Args[0])
+		return val{t: fmt.Sprintf("(str.from_code %s)", v.t), typ: types.Typ[types.String]}
 	case "fnid": // fnid(f) integer id of a function value (identity)
 		argN(1)
 		v := c.eval(x.Args[0])
@@ -746,6 +750,9 @@ func (c *evalCtx) call(x *ECall) val {
 		rt := types.Type(tMathInt)
 		if t.ResBool {
 			rt = tBool
+		}
+		if t.ResStr {
+			rt = types.Typ[types.String]
 		}
 		return val{t: fmt.Sprintf("(%s %s)", q("tbl:"+name), v.t), typ: rt}
 	}
